@@ -413,8 +413,13 @@ def synth_field(f, d, env, ps, r, ns_small):
         s = c_size(f["t"], ps)
         n = r.choice([0, 0, 1, 2, 3, 5])
         out = b""
+        sparse = r.random() < 0.5
         for _ in range(n):
             e = rnd_scalar(f["t"], ps, r)
+            if sparse and s > 1:
+                # elements with zero bytes inside: runs of `s` null bytes that straddle two elements are
+                # not a terminator (the terminator is a null ELEMENT)
+                e = bytes(0 if r.random() < 0.5 else r.randrange(1, 256) for _ in range(s))
             if e == b"\0" * s:
                 e = b"\x01" * s
             out += e
